@@ -1,5 +1,5 @@
 #!/usr/bin/env python3
-"""Regenerates MANIFEST.json from the table below (keeps it valid at all times)."""
+"""Regenerates MANIFEST.json from the table below (keeps it valid at all times).""
 import json
 from pathlib import Path
 
@@ -13,7 +13,7 @@ CHECKS = {
                      "over the curated worlds (thorough: plus all rooted DAGs with <=3 targets) is executed on the real binary; after every exit-0 "
                      "build the requested closure is compared with an independent from-scratch evaluation. In some worlds the alphabet also contains "
                      "interrupted builds (redo-ifchange killed, whole tree, when a chosen script reaches a chosen position; at most one kill per history). "
-                     "Exhaustive within the stated bound; nothing is sampled. Worlds also cover rules of parent directories building into directories that do not exist yet (world autodir) and scripts that go on without a dependency whose build failed (worlds tolerant, tolerant-csum)."",
+                     "Exhaustive within the stated bound; nothing is sampled. Worlds also cover rules of parent directories building into directories that do not exist yet (world autodir) and scripts that go on without a dependency whose build failed (worlds tolerant, tolerant-csum).",
                 note="Trusted: kernel/sh/SQLite semantics, the reference evaluator (60 lines), the canonical-key argument of DESIGN.md appendix C. "
                      "Graphs beyond the listed worlds and histories beyond depth d are not covered."),
     "C02": dict(engine="E1", category="model_checking", design_ref="DESIGN.md §4 C02",
@@ -21,14 +21,14 @@ CHECKS = {
                 text="Same bounded history space as C01; for every build command the multiset of executed .do scripts (append-only trace written by the "
                      "generated scripts) must equal the reference simulation that tracks, per target, the versions of the dependencies seen at its last "
                      "successful build (incl. its .do file and absent higher-priority candidates); each script at most once. Also: interrupted builds (kill points inside "
-                     "scripts) and hand edits of generated files as operations of the history. Exhaustive within depth d. Same additional worlds as C01 (autodir, tolerant)."",
+                     "scripts) and hand edits of generated files as operations of the history. Exhaustive within depth d. Same additional worlds as C01 (autodir, tolerant).",
                 note="Reference model (rv/refmodel.py) is trusted; three documented slack rules (S1,S2,S3: a target whose build was interrupted may be re-run) follow the observation. -j1 only; parallel runs are C07."),
     "C03": dict(engine="E1", category="model_checking", design_ref="DESIGN.md §4 C03",
                 technique="explicit-state BFS over operation histories on worlds with checksummed nodes; cut-off/forwarding vs reference simulation",
                 text="All histories <= d (quick 3, thorough 4-5) over worlds with a redo-stamp node at depth 1..3, two in series and one with plain+always "
                      "dependents, with edits that do and do not alter the stamped bytes; executed set must equal the reference (no dependent runs after an "
                      "unchanged checksum; every dependent runs in the same command after a changed one) and contents must equal the from-scratch evaluation. "
-                     "The run fails as vacuous unless all four quadrants (changed/unchanged x in-band/out-of-band) were exercised. One world feeds redo-stamp through a pipe in two bursts (csum-burst)."",
+                     "The run fails as vacuous unless all four quadrants (changed/unchanged x in-band/out-of-band) were exercised. One world feeds redo-stamp through a pipe in two bursts (csum-burst).",
                 note="Trusted: reference model; flat worlds; -j1."),
     "C04": dict(engine="E3 (observe mode) + behaviour matrix", category="fault_enumeration", design_ref="DESIGN.md §4 C04",
                 technique="exhaustive enumeration of script behaviours x sizes x prior states, target observed at every state-changing libc call boundary of every redo process",
@@ -37,7 +37,7 @@ CHECKS = {
                      "and both again with a temporary file left behind by a killed build} is built under an "
                      "LD_PRELOAD shim that stops every redo process before each state-changing libc call; at every such instant the target is absent-as-before, the "
                      "complete old bytes or the complete new bytes; final bytes, exit status (206/207/script's own), no *.redo.tmp left, and redo's only mutation of "
-                     "the target path is one rename(tmp->target) after status 0 or one unlink in the no-output case. Plus pairs of targets built by one command (nested, one after the other, -j2 with forced overlap) whose names share a stem (foo.a/foo.b, foo/foo.x, a.b.c/a.b.d, x.redo/x): each becomes exactly what its own script wrote to its own $3."",
+                     "the target path is one rename(tmp->target) after status 0 or one unlink in the no-output case. Plus pairs of targets built by one command (nested, one after the other, -j2 with forced overlap) whose names share a stem (foo.a/foo.b, foo/foo.x, a.b.c/a.b.d, x.redo/x): each becomes exactly what its own script wrote to its own $3.",
                 note="Atomicity is judged at libc-call granularity of redo processes (rename(2) itself is atomic by contract). The shim's call coverage was cross-checked "
                      "against strace -f (rv/e3.py self-test). Stores through SQLite's mmap'ed wal-index cannot be intercepted and are not in the property's list."),
     "C05": dict(engine="E1 (+E2 for -j2, see C09)", category="model_checking", design_ref="DESIGN.md §4 C05",
@@ -46,7 +46,7 @@ CHECKS = {
                      "of redo, and as the redo-ifchange list inside all.do, with and without keep-going, failing at the first build or at a later rebuild; "
                      "each as the history build / build again / repair / build. Every build step is judged: exit status, executed set == reference "
                      "(failed target retried next run, never twice in a run, dependents not treated as up to date), -k builds every buildable requested "
-                     "target, no `do` record after a non-zero `done` within a process, contents after exit 0. At -j1 no sibling is started after a failing target without --keep-going (the reference's earlier slack S2 is withdrawn)."",
+                     "target, no `do` record after a non-zero `done` within a process, contents after exit 0. At -j1 no sibling is started after a failing target without --keep-going (the reference's earlier slack S2 is withdrawn).",
                 note="Serial (-j1) enumeration is complete for this world and list length <=3; other graph shapes are covered only through C01/C02's fail world. "
                      "Second family: driver scripts run every sequence of <=3 redo / redo-ifchange commands inside ONE run. Parallel half (E2): redo -j2 [-k] "
                      "with the failing leaf, every schedule with <= b deviations; and a second invocation whose first target is locked by another invocation "
@@ -59,7 +59,7 @@ CHECKS = {
                      "SIGKILLs a whole invocation tree at any step while a second invocation wants the same targets (the survivor must exit 0 with correct contents); "
                      "and two invocations that reach one file through two names of its directory (a symbolic link). "
                      "From the scheduler's total event order: begin/end of one target's script never overlap; between a script's end and "
-                     "the next acquisition of that target's lock there is a record-begin followed by COMMIT from the recording process; every finished execution is recorded. Also: a source edited by the harness at a script-chosen instant while the out-of-band rebuild runs and a second invocation waits (S8); two forced `redo x` (built / never built): nobody's output is taken for the user's, both forced builds run, built targets are recorded as generated."",
+                     "the next acquisition of that target's lock there is a record-begin followed by COMMIT from the recording process; every finished execution is recorded. Also: a source edited by the harness at a script-chosen instant while the out-of-band rebuild runs and a second invocation waits (S8); two forced `redo x` (built / never built): nobody's output is taken for the user's, both forced builds run, built targets are recorded as generated.",
                 note="Script begin/end come from the generated scripts (trap EXIT). SIGKILL of an invocation's parent only (kernel frees fcntl locks of a dead owner while its "
                      "script survives) is outside these scenarios and is not claimed."),
     "C07": dict(engine="E2", category="model_checking", design_ref="DESIGN.md §4 C07, appendix A",
@@ -67,7 +67,7 @@ CHECKS = {
                 text="One invocation at -j2/-j3 on graphs with shared nodes (diamond, 3-fan over a shared leaf, two targets over a shared chain in every command-line order "
                      "= every --shuffle outcome, shared checksummed node on a rebuild, a shared target that stopped recording a checksum, shared redo-always node); every schedule with <= b deviations (quick 1, thorough 2). "
                      "No script starts twice; exit status, every file's content, the set of built targets and the canonical database state (flags, csum, stamp class, which "
-                     "run-id columns are set, dependency edges) equal the serial run's. --shuffle is enumerated through a hook (REDO_VERIF_SHUFFLE=k selects the k-th permutation of every list): all 24 permutations of lists of <= 4 names with repeated entries, redo and redo-ifchange, fresh and rebuild, -j1 and free-running -j2."",
+                     "run-id columns are set, dependency edges) equal the serial run's. --shuffle is enumerated through a hook (REDO_VERIF_SHUFFLE=k selects the k-th permutation of every list): all 24 permutations of lists of <= 4 names with repeated entries, redo and redo-ifchange, fresh and rebuild, -j1 and free-running -j2.",
                 note="The shuffle permutation hook of the design was replaced by enumerating the command-line orders explicitly (same set of orders). Graph sizes as listed."),
     "C08": dict(engine="E2 + harness as jobserver parent", category="model_checking", design_ref="DESIGN.md §4 C08, appendix A",
                 technique="stateless model checking with the harness owning the GNU-make token pipe; token-conservation and concurrency-limit oracle on the event order",
@@ -76,7 +76,7 @@ CHECKS = {
                      "follower in the scheduled tree), including two scenarios built so that the followed sub-redo has to CHEAT (token starvation while it waits for a lock: it "
                      "then finds the target up to date, or builds it itself with the borrowed token); every schedule with <= b "
                      "deviations (quick 1, thorough 2). Peak number of scripts inside work sections <= N (+1 only after a cheat grant); toplevel self-check and hook-reported "
-                     "counts equal N; inherited pipe holds exactly N-1 tokens and the cheat pipe is empty after all processes exited, on success, failure and error exit. Also a parent that is a real GNU make (MAKEFLAGS only, no cheat pipe) including a redo whose only job waits for a target held by an independent redo; an explicit -j1 / -j2 and a MAKEFLAGS-less redo started from inside a script after a cheat."",
+                     "counts equal N; inherited pipe holds exactly N-1 tokens and the cheat pipe is empty after all processes exited, on success, failure and error exit. Also a parent that is a real GNU make (MAKEFLAGS only, no cheat pipe) including a redo whose only job waits for a target held by an independent redo; an explicit -j1 / -j2 and a MAKEFLAGS-less redo started from inside a script after a cheat.",
                 note="Evidence reports the distinct ready-sets seen at event-loop wake-ups and how many executions granted a cheat token (a run where that is 0 has not "
                      "exercised cheating). Scripts in the cheat scenarios wait for each other through scheduler-visible flags (Spec.sync), which makes the contention the default schedule."),
     "C09": dict(engine="E2", category="model_checking", design_ref="DESIGN.md §4 C09, appendix A",
@@ -86,7 +86,7 @@ CHECKS = {
                      "fork hand-overs, select! order, script gates). Scenarios: sub-redo with three children plus a sibling job at -j2/-j3, two top-level invocations on "
                      "one target (two deviations already in the quick tier), the same target under two spellings, two sub-redos wanting each other's targets, diamond/fan at -j2/-j3, a failing fan, "
                      "token cheating under log capture, and a minute-long wait for a token (80 polling intervals in virtual time). Oracle on every "
-                     "execution: no panic / exit 101, no deadlock, no livelock, termination, exit 0 when all scripts succeed. Also a script that replaces its target's directory by a file while a sibling job runs."",
+                     "execution: no panic / exit 101, no deadlock, no livelock, termination, exit 0 when all scripts succeed. Also a script that replaces its target's directory by a file while a sibling job runs.",
                 note="Interleavings inside an SQLite immediate transaction and inside the kernel are not distinguished; time in the jobserver is virtual; at most 2 "
                      "top-level invocations and the listed graphs; schedules beyond the deviation bound are not covered."),
     "C10": dict(engine="E3", category="fault_enumeration", design_ref="DESIGN.md §4 C10, appendix D",
@@ -96,7 +96,7 @@ CHECKS = {
                      "whole tree}: the build is killed immediately before EVERY state-changing libc call (rename, unlink, open-for-write/create, write to the database, WAL, log, "
                      "ftruncate, mkdir...) of every redo process (k = 1..N per logical process) and, whole tree, at every script boundary (script start, after each dependency "
                      "request, after the output was written) -- ~1100 points quick, ~3000 thorough; then `redo-ifchange top` must terminate, "
-                     "exit 0, give from-scratch contents without 'you modified it', react correctly to editing every source, leave redo-ood empty, no lock held and no *.redo.tmp. Scope sproc kills, at the script boundaries, only the redo process that runs the script (the orphaned script goes on, redo-stamp included); scope tree+q runs redo-sources/targets/ood between the crash and the recovery: redo's own output is never listed as a source and everything the recovery rebuilds among the known targets was listed out of date. World csum-append: a checksummed node that appends to $3."",
+                     "exit 0, give from-scratch contents without 'you modified it', react correctly to editing every source, leave redo-ood empty, no lock held and no *.redo.tmp. Scope sproc kills, at the script boundaries, only the redo process that runs the script (the orphaned script goes on, redo-stamp included); scope tree+q runs redo-sources/targets/ood between the crash and the recovery: redo's own output is never listed as a source and everything the recovery rebuilds among the known targets was listed out of date. World csum-append: a checksummed node that appends to $3.",
                 note="Crash = process kill at libc-call boundaries (the property's quantifier), not power loss. Shim coverage cross-checked against strace -f. -j1, REDO_LOG=0. "
                      "The counting run is done twice and must agree."),
     "C16": dict(engine="E2", category="model_checking", design_ref="DESIGN.md §4 C16, appendix A",
@@ -113,7 +113,7 @@ CHECKS = {
                      "user-rm} for a name matched by default.x.do and a name with a specific t.do; an ownership ledger records the last writer of each path. Every redo "
                      "command must leave bytes and inode of every user-owned path unchanged, warn when it skips a user-modified generated file, run only scripts the reference "
                      "allows and rebuild correctly after the user removed the file. Also a user-made symbolic link under a name the default rule matches, and a second world in which the "
-                     "user edits and removes a checksummed target that has a dependent. Third world: a rule whose product is a directory (mkdir $3) and a non-empty directory of the user's under a matching name."",
+                     "user edits and removes a checksummed target that has a dependent. Third world: a rule whose product is a directory (mkdir $3) and a non-empty directory of the user's under a matching name.",
                 note="-j1; two names, one default and one specific rule. Edits that keep mtime AND size identical are not generated (redo's documented detection is by mtime/size)."),
     "C12": dict(engine="E1 (-j1) + E2 (-j2)", category="model_checking", design_ref="DESIGN.md §4 C12",
                 technique="exhaustive enumeration of cyclic graph family x entry points at -j1; stateless schedule exploration at -j2 with deadlock/livelock detection",
@@ -127,21 +127,21 @@ CHECKS = {
                 text="E4: for every target path of a component grammar (5 directory shapes x 9 name shapes incl. leading dots, double dots, spaces, unicode; "
                      "thorough also '..' and doubled-separator spellings) the candidate list of the library (possible_do_files) equals an independent "
                      "reference of the documented order. Real binary: for targets with k<=8 candidates, ALL 2^k placements of candidate scripts are built "
-                     "with `redo` and listed with `redo-whichdo`; chosen script, $1, $2, $3, cwd and the whichdo listing/status must equal the reference. Histories: add a higher-priority candidate / remove the chosen one for every candidate pair (target directory existing or not; the candidate first appearing as a dangling symbolic link; a target whose name starts with a dash)."",
+                     "with `redo` and listed with `redo-whichdo`; chosen script, $1, $2, $3, cwd and the whichdo listing/status must equal the reference. Histories: add a higher-priority candidate / remove the chosen one for every candidate pair (target directory existing or not; the candidate first appearing as a dangling symbolic link; a target whose name starts with a dash).",
                 note="Exhaustive over the stated grammar and placements; longer names/deeper trees are not covered. History part (add higher-priority / remove chosen) is C02's default world."),
     "C14": dict(engine="E1 (+E2 scenario always-j2)", category="model_checking", design_ref="DESIGN.md §4 C14",
                 technique="explicit-state BFS over create/delete/edit/build histories on the real binary; reference-simulation oracle",
                 text="All histories <= d (quick 3-4, thorough 5-6) of {redo-ifchange, create f, delete f, edit f, edit unrelated u} on worlds declaring "
                      "redo-ifcreate (conditionally and unconditionally) and of {redo-ifchange, redo, edit} on redo-always worlds with 2 and 3 dependents; "
                      "rebuilt iff the watched path came into existence, never for unrelated edits; ifcreate of an existing path fails; the always-target "
-                     "runs exactly once in every run that needs it and not otherwise. One world watches a path that is a dangling symbolic link. Also a watched path that comes into existence as a directory, one spelled through a missing directory (nosuch/../f), and the seed state present -> deleted."",
+                     "runs exactly once in every run that needs it and not otherwise. One world watches a path that is a dangling symbolic link. Also a watched path that comes into existence as a directory, one spelled through a missing directory (nosuch/../f), and the seed state present -> deleted.",
                 note="Parallel part (E2): the always-target with 2-3 dependents requested concurrently at -j2/-j3, all schedules <= b deviations. Flat worlds."),
     "C15": dict(engine="E4 (+E1/E2 end-to-end spellings)", category="exploration", design_ref="DESIGN.md §4 C15",
                 technique="exhaustive enumeration of all strings <= n over {a,b,.,/} and all (cwd,t,base) triples in a real tree with symlinks; kernel stat identity as ground truth",
                 text="normpath over every string of length <=6 (quick) / <=8 (thorough, 87 381) over {a,b,.,/} plus all <=6-component sequences of {'', ., .., a, bb}: "
                      "equals an independent Clean, is idempotent, and whenever stat(x) succeeds in a symlink-free real tree stat(normpath(x)) names the same inode. "
                      "relpath/realdirpath over all triples of 6 working directories x ~75 spellings x 15 bases in a real tree with directory symlinks: re-joining "
-                     "reaches the same directory entry (lstat identity). End to end also: scripts that cd (to sub-directories, through links) before asking for a root-level target under several spellings, direct and out-of-band path; first-ever commands from a working directory entered through a link outside the project with the logical $PWD exported."",
+                     "reaches the same directory entry (lstat identity). End to end also: scripts that cd (to sub-directories, through links) before asking for a root-level target under several spellings, direct and out-of-band path; first-ever commands from a working directory entered through a link outside the project with the logical $PWD exported.",
                 note="Kernel path resolution is the ground truth. Alphabets as stated; longer strings not covered. End-to-end part: every ordered pair of spellings on one command line "
                      "(unscheduled, -j1/-j2), and scheduled scenarios (E2, <= b deviations): several spellings while another invocation holds the lock, two invocations with different spellings, also through a directory symlink."),
     "C17": dict(engine="E1", category="model_checking", design_ref="DESIGN.md §4 C17",
@@ -157,7 +157,7 @@ CHECKS = {
                      "E2: world top -> {a -> c, b}, every script writes a whole line, a line in two halves with a scheduling point in between, a 20 kB line and a line after its "
                      "dependencies; default log mode (real redo-log follower inside the scheduled tree, its polls are scheduling points), -j1 and -j2, every schedule with <= b "
                      "deviations (quick 1, thorough 2): in the live output and in later `redo-log -r` replays (pretty and raw) each target's lines appear exactly once, in order, "
-                     "byte-complete, under that target's header. Further scenarios: a target reached under three names (../c from two directories), replays with -u, a nested build whose stderr the calling script redirected, lines that look like records (unknown file, malformed done, record prefix inside a partial line), an unchanged dependency that writes nothing."",
+                     "byte-complete, under that target's header. Further scenarios: a target reached under three names (../c from two directories), replays with -u, a nested build whose stderr the calling script redirected, lines that look like records (unknown file, malformed done, record prefix inside a partial line), an unchanged dependency that writes nothing.",
                 note="A script line that itself parses as a record is in-band signalling by design (thorough scenario). Graph and line shapes as listed."),
 }
 
